@@ -99,8 +99,8 @@ fn position(fd: RawFd) -> i64 {
 fn fixture_file(dir: &Path, name: &str, len: usize, pos: i64) -> (PathBuf, OwnedFd) {
     let path = dir.join(name);
     let content: Vec<u8> = (0..len).map(|i| b'a' + (i % 26) as u8).collect();
-    std::fs::write(&path, &content).expect("fixture");
-    let fd: OwnedFd = std::fs::OpenOptions::new().read(true).write(true).open(&path).expect("open fixture").into();
+    std::fs::write(&path, &content).expect("fixture: write");
+    let fd: OwnedFd = std::fs::OpenOptions::new().read(true).write(true).open(&path).expect("fixture: open").into();
     unsafe { libc::lseek(fd.as_raw_fd(), pos, libc::SEEK_SET) };
     (path, fd)
 }
@@ -455,7 +455,16 @@ fn run_case(case: &Value, dir: &Path) -> Problems {
                     return;
                 }
                 let v6 = a == 28;
-                let new_sock = || -> OwnedFd { unsafe { OwnedFd::from_raw_fd(libc::socket(if v6 { libc::AF_INET6 } else { libc::AF_INET }, libc::SOCK_STREAM | libc::SOCK_CLOEXEC, 0)) } };
+                let new_sock = || -> OwnedFd {
+                    let fd = unsafe { libc::socket(if v6 { libc::AF_INET6 } else { libc::AF_INET }, libc::SOCK_STREAM | libc::SOCK_CLOEXEC, 0) };
+                    assert!(fd >= 0, "fixture: socket");
+                    unsafe { OwnedFd::from_raw_fd(fd) }
+                };
+                {
+                    // Is the loopback address of this family usable at all?
+                    let probe = if v6 { std::net::TcpListener::bind("[::1]:0") } else { std::net::TcpListener::bind("127.0.0.1:0") };
+                    assert!(probe.is_ok(), "fixture: bind (no loopback interface of that family?)");
+                }
                 let listener = for_a10(ring, new_sock(), kind);
                 let lview = view(ring, &listener);
                 let bound: std::io::Result<()> = if v6 {
@@ -511,7 +520,7 @@ fn run_case(case: &Value, dir: &Path) -> Problems {
                 let flags = flags_from(b as u32, &table);
                 let udp = || -> OwnedFd { unsafe { OwnedFd::from_raw_fd(libc::socket(if v6 { libc::AF_INET6 } else { libc::AF_INET }, libc::SOCK_DGRAM | libc::SOCK_CLOEXEC, 0)) } };
                 let receiver = || -> (std::net::UdpSocket, std::net::SocketAddr) {
-                    let s = std::net::UdpSocket::bind(if v6 { "[::1]:0" } else { "127.0.0.1:0" }).expect("bind");
+                    let s = std::net::UdpSocket::bind(if v6 { "[::1]:0" } else { "127.0.0.1:0" }).expect("fixture: bind (no loopback interface of that family?)");
                     let a = s.local_addr().unwrap();
                     (s, a)
                 };
@@ -783,6 +792,7 @@ fn main() {
     unsafe { libc::umask(0o022) };
     let to = to.min(cases.len());
     let mut bad = 0;
+    let mut skipped = 0;
     for (ci, case) in cases.iter().enumerate().take(to).skip(from) {
         if !progress_path.is_empty() && ci % 8 == 0 {
             let mut raw = Vec::new();
@@ -795,7 +805,14 @@ fn main() {
             Ok(p) => p,
             Err(p) => {
                 RK.with(|c| std::mem::forget(c.borrow_mut().take()));
-                vec![json!({"field": "panic", "expected": null, "observed": p.downcast_ref::<String>().cloned().or_else(|| p.downcast_ref::<&str>().map(|s| (*s).to_string()))})]
+                let msg = p.downcast_ref::<String>().cloned().or_else(|| p.downcast_ref::<&str>().map(|s| (*s).to_string())).unwrap_or_default();
+                if msg.starts_with("fixture: ") {
+                    // The environment cannot provide the fixture (e.g. no IPv6 loopback): nothing to compare.
+                    skipped += 1;
+                    Vec::new()
+                } else {
+                    vec![json!({"field": "panic", "expected": null, "observed": msg})]
+                }
             }
         };
         if let Some(mut d) = problems.into_iter().next() {
@@ -815,5 +832,5 @@ fn main() {
         raw.extend_from_slice(&0u64.to_le_bytes());
         let _ = std::fs::write(&progress_path, raw);
     }
-    writeln!(out, "{}", json!({"summary": true, "paths": to.saturating_sub(from), "steps": to.saturating_sub(from), "diverged_paths": bad})).unwrap();
+    writeln!(out, "{}", json!({"summary": true, "paths": to.saturating_sub(from), "steps": to.saturating_sub(from), "diverged_paths": bad, "skipped_for_lack_of_fixture": skipped})).unwrap();
 }
